@@ -228,6 +228,12 @@ def gen_cons(rng, g, D, x0, kind):
         far = [a + smin * rng.uniform(0.5, 1.5) * t for a, t in zip(anchor, unit())]
         p2 = gen_cons(rng, g, D, far, "ball")
         return dict(kind="union", parts=[p1, p2])
+    if kind == "pinhole":
+        # feasible set contains a single point of the initial search mesh (x0 itself):
+        # every search candidate and every poll point is infeasible until the mesh has
+        # shrunk below the hole - a long stretch of loop iterations without evaluations
+        r = 0.3 * min(s / 2048.0 for s in scale)
+        return dict(kind="ball", c=[float(v) for v in anchor], r=float(r))
     if kind == "tinyball":
         r = smin * 10 ** rng.uniform(-4, -1.5)
         return dict(kind="ball", c=[_r(v, 12) for v in anchor], r=_r(r, 6))
@@ -257,12 +263,15 @@ def _special_x0(rng, g, D, cons, x0, mode):
     if v(good) > 0:
         return None
     a, b = good, bad
-    for _ in range(60):
+    for _ in range(rng.randrange(8, 40)):
         m = [(p + q) / 2 for p, q in zip(a, b)]
         if v(m) > 0:
             b = m
         else:
             a = m
+    if mode == "infeasible_near":
+        # just outside the feasible region: snapping to the mesh may move it inside
+        return [float(t) for t in b]
     return [float(t) for t in a]
 
 
@@ -333,8 +342,8 @@ DEFAULT_PROFILE = dict(
     noise=["none", "auto", "declared", "hetero"],
     noise_w=[5, 1, 2, 2],
     cons_p=0.3,
-    cons=["ball", "halfspace", "slab", "annulus", "union", "tinyball"],
-    cons_w=[3, 3, 2, 2, 1, 1],
+    cons=["ball", "halfspace", "slab", "annulus", "union", "tinyball", "pinhole"],
+    cons_w=[3, 3, 2, 2, 1, 1, 1],
     clock=["const", "zero", "rand", "long", "jumps"],
     clock_w=[4, 1, 2, 1, 2],
 )
@@ -388,6 +397,19 @@ def make_scenario(seed, profile=None, index=0):
     cons = None
     if rng.random() < prof["cons_p"]:
         ckind = _choice(rng, prof["cons"], prof.get("cons_w"))
+        if ckind == "pinhole":
+            ok = g["lb"] is not None and g["plb"] is not None and not any(g["islog"]) and all(
+                g["plb"][i] > g["lb"][i] + 2e-3 * (g["ub"][i] - g["lb"][i]) and
+                g["pub"][i] < g["ub"][i] - 2e-3 * (g["ub"][i] - g["lb"][i]) for i in range(D))
+            if ok:
+                # x0 exactly on the initial search mesh (2**-10 in internal units)
+                x0 = [g["plb"][i] + (g["pub"][i] - g["plb"][i]) * rng.randrange(200, 1849) / 2048.0 for i in range(D)]
+                scn["x0"], scn["x0_class"] = x0, "on_bound"
+            else:
+                ckind = "tinyball"
+                if x0 is None:
+                    x0, _ = gen_x0(rng, g, D, "inside")
+                    scn["x0"], scn["x0_class"] = x0, "on_bound"
         cons = gen_cons(rng, g, D, x0, ckind)
         cons["ret"] = "bool" if rng.random() < 0.4 else "float"
         cons["gen_kind"] = ckind
@@ -399,11 +421,13 @@ def make_scenario(seed, profile=None, index=0):
             mode = "infeasible"
         elif t < prof.get("x0_infeasible_p", 0.0) + prof.get("x0_nearcons_p", 0.0):
             mode = "near_cons"
+        elif t < prof.get("x0_infeasible_p", 0.0) + prof.get("x0_nearcons_p", 0.0) + prof.get("x0_infeasible_near_p", 0.0):
+            mode = "infeasible_near"
         if mode:
             nx = _special_x0(rng, g, D, cons, x0, mode)
             if nx is not None:
                 scn["x0"] = nx
-                scn["x0_class"] = mode
+                scn["x0_class"] = "infeasible" if mode == "infeasible_near" else mode
     opts = gen_options(rng, D, prof, noise_mode)
     opts.update(opts_noise)
     opts.update(prof.get("force_options", {}))
